@@ -85,6 +85,9 @@ func serveQuiet(p *Program, code map[string][]byte, sid string, mode string, inp
 	if pseed%2 == 0 {
 		cfg.Language = "nor"
 	}
+	// every third history with state debugging on (flag names in the engine's log lines: a process-wide registry is consulted)
+	debug := pseed%3 == 0
+	cfg.StateDebug = debug
 	var lst *state.State
 	var lpe *persist.Persister
 	var out []string
@@ -106,6 +109,9 @@ func serveQuiet(p *Program, code map[string][]byte, sid string, mode string, inp
 				en = en.WithPersister(lpe)
 			} else {
 				lst = state.NewState(uint32(p.FlagCount))
+				if debug {
+					lst.UseDebug()
+				}
 				en = en.WithState(lst).WithMemory(cache.NewCache())
 			}
 		}
@@ -203,13 +209,6 @@ func cmdRaceRun(args []string) error {
 			inputs = append(inputs, p.Inputs[rng.Intn(len(p.Inputs))])
 		}
 		job := raceJob{p: p, mode: []string{"L", "P", "F"}[rng.Intn(3)], inputs: inputs, pseed: rng.Int63()}
-		// solo transcript over PRIVATE, exact-capacity data (and a private data directory)
-		solodir, err := os.MkdirTemp("", "verif-race-solo-")
-		if err != nil {
-			return err
-		}
-		job.solo = serveQuiet(p, cloneCode(p, 0), "solo", job.mode, inputs, job.pseed, solodir)
-		os.RemoveAll(solodir)
 		jobs = append(jobs, job)
 	}
 	shareddir, err := os.MkdirTemp("", "verif-race-data-")
@@ -221,6 +220,7 @@ func cmdRaceRun(args []string) error {
 	var mu sync.Mutex
 	mism := []map[string]any{}
 	nmis := 0
+	gots := map[int][][]string{}
 	ch := make(chan int)
 	// a session id is used once: every serving of a job gets its own id (and so its own record in the shared directory)
 	var repmu sync.Mutex
@@ -238,18 +238,9 @@ func cmdRaceRun(args []string) error {
 			for j := range ch {
 				job := jobs[j]
 				got := serveQuiet(job.p, shared[job.p], fmt.Sprintf("w%d_j%d_%d", w, j, rep(j)), job.mode, job.inputs, job.pseed, shareddir)
-				same := len(got) == len(job.solo)
-				for k := 0; same && k < len(got); k++ {
-					same = got[k] == job.solo[k]
-				}
-				if !same {
-					mu.Lock()
-					nmis++
-					if len(mism) < 5 {
-						mism = append(mism, map[string]any{"program": job.p.Name, "mode": job.mode, "inputs": encAll(job.inputs), "solo": encAll(job.solo), "concurrent": encAll(got)})
-					}
-					mu.Unlock()
-				}
+				mu.Lock()
+				gots[j] = append(gots[j], got)
+				mu.Unlock()
 			}
 		}(w)
 	}
@@ -261,6 +252,30 @@ func cmdRaceRun(args []string) error {
 	}
 	close(ch)
 	wg.Wait()
+	// the references: every history served alone, one after another, over PRIVATE, exact-capacity data and a private data
+	// directory - AFTER the concurrent phase, so that whatever the library initialises lazily on first use is initialised while
+	// sessions run side by side, not by the reference runs
+	for j := range jobs {
+		job := &jobs[j]
+		solodir, err := os.MkdirTemp("", "verif-race-solo-")
+		if err != nil {
+			return err
+		}
+		job.solo = serveQuiet(job.p, cloneCode(job.p, 0), "solo", job.mode, job.inputs, job.pseed, solodir)
+		os.RemoveAll(solodir)
+		for _, got := range gots[j] {
+			same := len(got) == len(job.solo)
+			for k := 0; same && k < len(got); k++ {
+				same = got[k] == job.solo[k]
+			}
+			if !same {
+				nmis++
+				if len(mism) < 5 {
+					mism = append(mism, map[string]any{"program": job.p.Name, "mode": job.mode, "inputs": encAll(job.inputs), "solo": encAll(job.solo), "concurrent": encAll(got)})
+				}
+			}
+		}
+	}
 	// the shared data must be what it was
 	dirty := []string{}
 	for _, p := range progs {
